@@ -115,20 +115,25 @@ def run(ctx, ck) -> None:
     def set_of(name):
         return ('call', ('var', 'set'), (('call', ('attr', ('var', name), 'replace'), (('const', "'...'"), ('const', "''")), ()),), ())
 
+    # local names are read through (a set may be computed from an intermediate `letters = lefts.replace(...)`): every
+    # assignment is expanded with the values of the names assigned before it, the three parsed parts staying symbolic
     set_names: dict = {}
     derived: dict = {}
+    env_x: dict = {}
     for st in rew.body:
         if isinstance(st, ast.Assign) and isinstance(st.targets[0], ast.Name):
-            t = term(st.value)
+            t = term(st.value, env_x)
             for role, n in (('L', lefts_n), ('R', rights_n), ('O', results_n)):
                 if t == set_of(n) and role not in set_names:
                     set_names[role] = st.targets[0].id
             if t[0] == 'binop' and t[1] in ('&', '-') and st.targets[0].id not in derived.values():
                 derived[st.targets[0].id] = t
+            if st.targets[0].id not in (lefts_n, rights_n, results_n):
+                env_x[st.targets[0].id] = t
     if len(set_names) != 3:
         ck.incomplete('E3', rew, 'cannot identify the three letter sets of the subscripts')
         return
-    Ls, Rs, Os = (('var', set_names[k]) for k in ('L', 'R', 'O'))
+    Ls, Rs, Os = (set_of(n) for n in (lefts_n, rights_n, results_n))
     want_sum = {('binop', '&', Ls, ('binop', '-', Rs, Os)), ('binop', '-', ('binop', '&', Ls, Rs), Os), ('binop', '-', ('binop', '&', Rs, Ls), Os)}
     want_tr = {('binop', '&', Ls, ('binop', '-', Os, Rs)), ('binop', '-', ('binop', '&', Ls, Os), Rs), ('binop', '-', ('binop', '&', Os, Ls), Rs)}
     sum_name = next((n for n, t in derived.items() if t in want_sum), None)
@@ -326,6 +331,12 @@ def _role_order(t, subs, blocks, x, env):
         c = t[2][1]
         tgt = c[2][0][0]
         if einsum_call(c[1], lambda b: b == blocks, lambda l: l == tgt):
+            return True, 'shared blocks, every leaf'
+        return False, s
+    if t[0] == 'call' and t[1] == ('attr', ('attr', ('var', 'jax'), 'tree'), 'map') and len(t[2]) == 2 and t[2][1] == x and t[2][0][0] == 'lambda' and len(t[2][0][1]) == 1:
+        # the same blocks mapped over every leaf of x (tree.map is flatten / apply / unflatten)
+        p1 = ('var', t[2][0][1][0])
+        if einsum_call(t[2][0][2], lambda b: b == blocks, lambda l: l == p1):
             return True, 'shared blocks, every leaf'
         return False, s
     if t[0] == 'call' and t[1] == ('attr', ('attr', ('var', 'jax'), 'tree'), 'map') and len(t[2]) == 3:
